@@ -427,6 +427,17 @@ func ruleRangeThenMatch(c *Ctx) {
 			ast.Inspect(lit.Body, func(y ast.Node) bool {
 				if c2, ok := y.(*ast.CallExpr); ok {
 					g := callee(info, c2)
+					// a local closure bound once (collect := func(key string) {…}) or a tile38 helper that matches
+					if id, ok := ast.Unparen(c2.Fun).(*ast.Ident); ok && g == nil {
+						if fl, ok := ast.Unparen(resolveLocal(info, fn.Decl.Body, id)).(*ast.FuncLit); ok {
+							if callsThrough(c, info, fl.Body, func(h *types.Func, _ *ast.CallExpr) bool { return isFunc(h, globPath, "Match") }, 1) {
+								matches = true
+							}
+						}
+					}
+					if g != nil && c.FuncOf(g) != nil && callsThrough(c, info, c2, func(h *types.Func, _ *ast.CallExpr) bool { return isFunc(h, globPath, "Match") }, 2) {
+						matches = true
+					}
 					if isFunc(g, globPath, "Match") {
 						matches = true
 					}
